@@ -177,7 +177,8 @@ impl<'a> Reader<'a> {
         let owner_end = self.cursor + owner_len;
         let rr_type = read_u16(&self.octets[owner_end..])?.into();
         let class = read_u16(&self.octets[owner_end + 2..])?.into();
-        let ttl = read_u32(&self.octets[owner_end + 4..])?.into();
+        let raw_ttl = read_u32(&self.octets[owner_end + 4..])?;
+        let ttl = ttl_from_field(rr_type, raw_ttl);
         let rdlength = read_u16(&self.octets[owner_end + 8..])?;
         let rdata = Rdata::read(
             class,
@@ -371,11 +372,14 @@ impl<'r, 'b> PeekRr<'r, 'b> {
 
     /// Returns the resource record's time-to-live.
     pub fn ttl(&self) -> Ttl {
-        Ttl::from(u32::from_be_bytes(
-            self.reader.octets[self.owner_end + 4..self.owner_end + 8]
-                .try_into()
-                .unwrap(),
-        ))
+        ttl_from_field(
+            self.rr_type(),
+            u32::from_be_bytes(
+                self.reader.octets[self.owner_end + 4..self.owner_end + 8]
+                    .try_into()
+                    .unwrap(),
+            ),
+        )
     }
 
     /// Returns the resource record's RDLENGTH field.
@@ -435,6 +439,17 @@ fn read_u16(octets: &[u8]) -> Result<u16> {
         .try_into()
         .unwrap();
     Ok(u16::from_be_bytes(array))
+}
+
+/// Interprets the TTL field of a record of type `rr_type`. For the OPT
+/// pseudo-RR, the field carries EDNS data rather than a TTL and is
+/// passed through unmodified.
+fn ttl_from_field(rr_type: Type, raw: u32) -> Ttl {
+    if rr_type == Type::OPT {
+        Ttl::from_opt_ttl_field(raw)
+    } else {
+        Ttl::from(raw)
+    }
 }
 
 /// Reads a network-byte-order `u32` from the beginning of `octets`.
